@@ -5,7 +5,7 @@
    without remove_silence) over the rows in INPUT order; covers o mt lo n r c = note n occupies
    (row r, frame c); cell_spec = binarised maximum velocity of the covering notes, 0 if none. *)
 From PV Require Import Lib.Base Lib.Round Model.C13 Proofs.C13_lib Proofs.C13 Proofs.C13_pc Proofs.C13_decode.
-From PV Require Import Proofs.C13_round Proofs.C13_more.
+From PV Require Import Proofs.C13_round Proofs.C13_more Proofs.C13_scan.
 From Coq Require Import QArith Qround Permutation.
 #[local] Open Scope Z_scope.
 
@@ -269,3 +269,20 @@ Theorem example_roundtrip :
       Some [(64, (0 # 4)%Q, (1 # 4)%Q, 33); (60, (1 # 4)%Q, (3 # 4)%Q, 101); (60, (6 # 4)%Q, (2 # 4)%Q, 80)].
 Proof. exact example_roundtrip_lemma. Qed.
 Print Assumptions example_roundtrip.
+
+(* the decoder as the code runs it -- one pass over the time steps with the dictionary of sounding notes
+   (Model.C13.scan_row / scan_col / scan) -- returns the same notes as the row-wise run-length decoder
+   the statements above are about, for EVERY roll (any cell values, any shape) *)
+Theorem column_scan_is_rowwise_decoding : forall rows cols m,
+  Permutation (scan_frames rows cols m) (decode_frames rows cols m).
+Proof. exact scan_frames_perm. Qed.
+Print Assumptions column_scan_is_rowwise_decoding.
+
+Theorem notearray_scan_agrees : forall rows cols m td,
+  match pianoroll_to_notearray_scan rows cols m td, pianoroll_to_notearray rows cols m td with
+  | Some l, Some l' => Permutation l l'
+  | None, None => True
+  | _, _ => False
+  end.
+Proof. exact notearray_scan_perm. Qed.
+Print Assumptions notearray_scan_agrees.
